@@ -63,6 +63,7 @@ type memRepoUpload struct {
 	expect    digest.Digest
 	mr        *memRepo
 	sessionID string
+	internal  bool // written by the registry itself, not tracked as an upload session
 }
 
 func NewMem(conf config.Config, opts ...Opts) Store {
@@ -413,9 +414,12 @@ func (mr *memRepo) blobCreate(locked bool, opts ...BlobOpt) (BlobCreator, string
 		expect:    conf.expect,
 		mr:        mr,
 		sessionID: sessionID,
+		internal:  conf.internal,
 	}
 	mr.timeMod = time.Now()
-	mr.uploads.Set(sessionID, bc)
+	if !conf.internal {
+		mr.uploads.Set(sessionID, bc)
+	}
 	return bc, sessionID, nil
 }
 
@@ -577,8 +581,10 @@ func (mru *memRepoUpload) Write(p []byte) (int, error) {
 	mru.mu.Lock()
 	defer mru.mu.Unlock()
 	// verify session still exists and update last write time
-	if _, err := mru.mr.uploads.Get(mru.sessionID); err != nil {
-		return 0, fmt.Errorf("session expired %s: %w", mru.sessionID, err)
+	if !mru.internal {
+		if _, err := mru.mr.uploads.Get(mru.sessionID); err != nil {
+			return 0, fmt.Errorf("session expired %s: %w", mru.sessionID, err)
+		}
 	}
 	return mru.w.Write(p)
 }
@@ -587,8 +593,10 @@ func (mru *memRepoUpload) Close() error {
 	mru.mu.Lock()
 	defer mru.mu.Unlock()
 	// a session that was cancelled, evicted or expired while the request was in progress cannot be completed
-	if _, err := mru.mr.uploads.Get(mru.sessionID); err != nil {
-		return fmt.Errorf("session expired %s: %w", mru.sessionID, err)
+	if !mru.internal {
+		if _, err := mru.mr.uploads.Get(mru.sessionID); err != nil {
+			return fmt.Errorf("session expired %s: %w", mru.sessionID, err)
+		}
 	}
 	if mru.expect != "" && mru.d.Digest() != mru.expect {
 		return fmt.Errorf("digest mismatch, expected %s, received %s%.0w", mru.expect, mru.d.Digest(), types.ErrDigestMismatch)
@@ -604,6 +612,9 @@ func (mru *memRepoUpload) Close() error {
 	}
 	mru.mr.mu.Unlock()
 	mru.mr.log.Debug("blob created", "repo", mru.mr.path, "digest", mru.d.Digest().String())
+	if mru.internal {
+		return nil
+	}
 	return mru.mr.uploads.Delete(mru.sessionID)
 }
 
@@ -611,6 +622,9 @@ func (mru *memRepoUpload) Close() error {
 func (mru *memRepoUpload) Cancel() error {
 	mru.mu.Lock()
 	defer mru.mu.Unlock()
+	if mru.internal {
+		return nil
+	}
 	return mru.mr.uploads.Delete(mru.sessionID)
 }
 
